@@ -89,6 +89,11 @@ Definition check2 (k : case2) : N :=
   end.
 Definition failing2 (cs : list case2) : list (N * N) := failing_from check2 0 cs.
 
+(* operations given to the object before its `with` block ([k3_pre]); [k3] holds the session's own operations and the file *)
+Record case3 := { k3_pre : list op; k3 : case }.
+Definition check3 (k : case3) : N := check_result (session_pre (k_cfg (k3 k)) (k3_pre k) (k_ops (k3 k))) (k3 k).
+Definition failing3 (cs : list case3) : list (N * N) := failing_from check3 0 cs.
+
 Definition failing (cs : list case) : list (N * N) := failing_from check 0 cs.
 
 Definition diff_at (k : case) : option N :=
